@@ -127,7 +127,7 @@ func genMonitor(out *Output, rng *Rng) {
 			}
 			checkResultSetIn(out, "cert "+cc.File, rs, cn, metas, cc.DER)
 		}
-		for _, cc := range corpus.CRLs {
+		for _, cc := range append(append([]CorpusCRL{}, corpus.CRLs...), crlZoo()...) {
 			var rs *zlint.ResultSet
 			var pv interface{}
 			func() {
@@ -136,12 +136,12 @@ func genMonitor(out *Output, rng *Rng) {
 			}()
 			runs++
 			if pv != nil {
-				out.Violate("C01|panic-escaped:crl:"+cc.File, fmt.Sprintf("LintRevocationListEx panicked: %v", pv), cc.File, nil, nil)
+				out.Violate("C01|panic-escaped:crl:"+cc.File, fmt.Sprintf("LintRevocationListEx panicked: %v", pv), map[string]interface{}{"file": cc.File, "der": hexs(cc.DER)}, nil, nil)
 				continue
 			}
 			checkResultSet(out, "crl "+cc.File, rs, ln, metas)
 		}
-		for _, cc := range corpus.OCSPs {
+		for _, cc := range append(append([]CorpusOCSP{}, corpus.OCSPs...), ocspZoo()...) {
 			var rs *zlint.ResultSet
 			var pv interface{}
 			func() {
@@ -150,7 +150,7 @@ func genMonitor(out *Output, rng *Rng) {
 			}()
 			runs++
 			if pv != nil {
-				out.Violate("C01|panic-escaped:ocsp:"+cc.File, fmt.Sprintf("LintOcspResponseEx panicked: %v", pv), cc.File, nil, nil)
+				out.Violate("C01|panic-escaped:ocsp:"+cc.File, fmt.Sprintf("LintOcspResponseEx panicked: %v", pv), map[string]interface{}{"file": cc.File, "der": hexs(cc.DER)}, nil, nil)
 				continue
 			}
 			checkResultSet(out, "ocsp "+cc.File, rs, on, metas)
